@@ -679,6 +679,25 @@ fn stalls(ctx: &Ctx) {
         let via = if k % 6 == 5 { Some("/*".to_string()) } else { None };
         cases.push(Case { req, upstream, timeout_ms: 300, spec: Some(spec), close_delimited: false, via_handler: via });
     }
+    // a close-delimited response (no Content-Length, not chunked) that stalls after its complete head: the body is only
+    // ended by the close, so a stall is an incomplete response (502), whatever part of the body has arrived
+    for k in 0..ctx.tier.pick(4usize, 24usize) {
+        let req = small_req().new_tree(&mut runner).unwrap().current();
+        let mut spec = small_resp().new_tree(&mut runner).unwrap().current();
+        spec.status = 200;
+        spec.reason = "OK".into();
+        spec.body = format!("close-delimited body {}", k).into_bytes();
+        spec.framing = FramingSpec::ContentLength;
+        spec.headers.truncate(1);
+        let wire = render_close_delimited(&spec);
+        let head = wire.len() - spec.body.len();
+        let at = match k % 3 {
+            0 => head,
+            1 => head + spec.body.len() / 2,
+            _ => wire.len(),
+        };
+        cases.push(Case { req, upstream: Upstream::StallAfter { at, wire }, timeout_ms: 300, spec: Some(spec), close_delimited: true, via_handler: None });
+    }
     // an upstream that accepts and never reads, with a request body far larger than the loopback socket buffers
     for k in 0..ctx.tier.pick(2usize, 8usize) {
         let mut req = small_req().new_tree(&mut runner).unwrap().current();
